@@ -5,7 +5,7 @@
      (xreftable xBYTES)                 -> xref_and_trailer, first alternative (Model/Xref.v)
      (objstm (d ...) xCONTENT)          -> ObjectStream::new (Model/ObjStm.v)
    <expected> = (loaded xVERSION (trailer sorted by key) (objs ...)) *)
-From LV Require Import Base.Bytes Base.Sx Model.Obj Model.Parser Model.Xref Model.ObjStm
+From LV Require Import Base.Bytes Base.Sx Model.Obj Model.Parser Model.Xref Model.ObjStm Model.Loader
   Spec.XrefSpec Spec.RefWriter.
 
 Local Open Scope N_scope.
@@ -277,6 +277,16 @@ Definition xres_to_sx (r : xres (xref * dict)) (with_size : bool) : sx :=
 Definition objmap_to_csx (m : objmap) : sx :=
   SL (sx_id "objs" :: map (fun io => SL [oid_to_sx (fst io); cobj_to_sx (snd io)]) m).
 
+(* the loader model (Model/Loader.v, C01) on a reference file: printed like the harness prints the real
+   document; where the loader model does not cover a feature (LUnmodelled) the expected content is echoed *)
+Definition bookkeeping : list bytes :=
+  [bs "Type"; bs "W"; bs "Index"; bs "Length"; bs "Filter"; bs "DecodeParms"].
+Definition model_loaded_sx (d : doc) (ignore : list N) : sx :=
+  SL [sx_id "loaded"; sx_bytes (d_version d);
+      cobj_to_sx (ODict (sort_dict (filter (fun kv => negb (existsb (bytes_eqb (fst kv)) bookkeeping)) (d_trailer d))));
+      SL (sx_id "objs" :: map (fun io => SL [oid_to_sx (fst io); cobj_to_sx (snd io)])
+                              (filter (fun io => negb (existsb (N.eqb (fst (fst io))) ignore)) (d_objects d)))].
+
 Definition run (x : sx) : sx :=
   match x with
   | SL [t; a; b] =>
@@ -314,7 +324,20 @@ Definition run (x : sx) : sx :=
       end
     else if is_id t "asset" then SL [sx_id "asset"; sx_id "ok"]
     else sx_id "badcase"
-  | SL [t; _; _; e] => if is_id t "load" then e else sx_id "badcase"
+  | SL [t; b; ig; e] =>
+    if is_id t "load" then
+      match as_bytes b, as_Ns ig with
+      | Some f, Some ignore =>
+        match load f with
+        | LOk d _ => model_loaded_sx d ignore
+        | LUnmodelled => e
+        | LErr _ => SL [sx_id "loaderr"; sx_id "model"]
+        | LPanic => sx_id "panic"
+        | LOut => sx_id "outoffuel"
+        end
+      | _, _ => sx_id "badcase"
+      end
+    else sx_id "badcase"
   | _ => sx_id "badcase"
   end.
 
